@@ -332,8 +332,12 @@ def run(ctx):
         "(address of the referent, value, no payload constructed from the original, owned object stored inside the wrapper, flags/second component still designate their originals), the lifetime "
         "registry and AddressSanitizer are polled; every scenario ends with the source destroyed and a full re-read. Bitset references: 2 block types x {bitset, view} x 4 access paths x bit {0,7,8,9} "
         "x 4 patterns x every sequence of length <= %d over 14 operations against a vector<bool> model. forward_sequence: result type x source type x category x size 0..3. "
+        "CONVERSIONS: a reference-closure wrapper built from lvalues (closure, proxy_wrapper, closure_pointer, optional, masked_value, xcomplex; closure T& and const T&) used as lvalue, xvalue and "
+        "prvalue-proxy source of an owning specialization or value (converting constructors implicit and explicit, converting assignments, &&-qualified accessors and conversion operators, "
+        "162 forms) x payload {Counted, heap std::string, std::vector<int>}: the originals keep their value and are never the source of a move, the result is equal and independent. "
         "distinct_nontrivial = static identities whose accepted type differs from the input type (counted once per identity, not per compiler) + dynamic scenarios in which at least one "
-        "write changed the model state (so aliasing and ownership were actually distinguished); distinct_outcome_traces counts distinct observation traces"
+        "write changed the model state (so aliasing and ownership were actually distinguished) + conversion cases whose result was verified independent by writing both sides; "
+        "distinct_outcome_traces counts distinct observation traces"
         % (", ".join("%s -std=%s" % f for f in fronts), maxlen, bit_len))
     ctx.assumptions += [
         "the rule of the property statement is the oracle for types; where it leaves a choice (const_ variants on rvalues: T or const T; a const wrapper over a T& closure: T& or const T&; "
